@@ -7,6 +7,7 @@ from props import c01, c02, c03, c08
 
 PROP = 'C04'
 BIN = 'c04'
+DENSE = {'quick': {8: 16, 16: 16, 32: 16, 64: 16}, 'thorough': {8: 48, 16: 48, 32: 48, 64: 48}}   # bounded by the build time of this driver
 SIG = {'ar': 'xx', 'sh': 'xd', 'pw': 'xdx'}
 encode = default_encode(SIG)
 decode = default_decode(SIG)
